@@ -7,6 +7,8 @@ import (
 	"fmt"
 	"io"
 	"math/rand"
+	"sort"
+	"sync"
 
 	"github.com/mutagen-io/mutagen/pkg/synchronization/rsync"
 
@@ -177,4 +179,63 @@ func splice(rng *rand.Rand, base []byte, edits int) []byte {
 		}
 	}
 	return t
+}
+
+// collector buffers violations found by parallel workers and reports them in
+// a deterministic order, smallest input first, so that replay files hold the
+// minimal witnesses and do not depend on goroutine scheduling.
+type collector struct {
+	mu   sync.Mutex
+	kept map[string][]pendingViolation // per signature: the few smallest
+	more map[string]int                // per signature: how many beyond the kept ones
+	sigs map[string]map[string]string
+}
+
+type pendingViolation struct {
+	size    int
+	order   string
+	what    string
+	witness any
+}
+
+func newCollector() *collector {
+	return &collector{kept: map[string][]pendingViolation{}, more: map[string]int{}, sigs: map[string]map[string]string{}}
+}
+
+func (c *collector) add(sig map[string]string, size int, order, what string, witness any) {
+	key := vk.JSON(sig)
+	c.mu.Lock()
+	defer c.mu.Unlock()
+	c.sigs[key] = sig
+	l := append(c.kept[key], pendingViolation{size, order, what, witness})
+	sort.Slice(l, func(i, j int) bool {
+		if l[i].size != l[j].size {
+			return l[i].size < l[j].size
+		}
+		return l[i].order < l[j].order
+	})
+	if len(l) > 3 {
+		c.more[key] += len(l) - 3
+		l = l[:3]
+	}
+	c.kept[key] = l
+}
+
+func (c *collector) flush(r *vk.Run) {
+	c.mu.Lock()
+	defer c.mu.Unlock()
+	keys := make([]string, 0, len(c.kept))
+	for k := range c.kept {
+		keys = append(keys, k)
+	}
+	sort.Strings(keys)
+	for _, k := range keys {
+		for _, p := range c.kept[k] {
+			r.Violation(c.sigs[k], p.what, p.witness)
+		}
+		for i := 0; i < c.more[k]; i++ {
+			r.Violation(c.sigs[k], "(further case of the same kind)", nil)
+		}
+	}
+	c.kept, c.more = map[string][]pendingViolation{}, map[string]int{}
 }
